@@ -13,7 +13,10 @@ RULE = ("histories of 1-40 requests (FC 1-6, 15, 16, 22, 23, and unassigned func
         "{1,2,9,125,2000,65536}, sparse blocks with holes, zero-mode on/off, shared tables; addresses are drawn at "
         "block boundaries, ~75% of requests valid so that the state evolves; every response and store dumps "
         "(full, or digest + touched neighbourhood above 300 cells) are compared in lock-step with the model and "
-        "with the abstract data model ExecSpec; non-trivial = at least one normal (non-exception) response; "
+        "with the abstract data model ExecSpec, and the bytes bytes([fc]) + response.encode() of every response with "
+        "the spec's response PDU (ExecWire.spec_rsp_pdu); suite bitreads: FC1/2 reads of 9..24 bits over mixed "
+        "patterns; suite sharing: ModbusSlaveContext() default tables and eight blocks of two contexts built from "
+        "one Python list object (model: distinct blocks), writes followed by reads of the sibling table; non-trivial = at least one normal (non-exception) response; "
         "distinct = distinct case terms")
 TRUSTED = [
     "hand-modelled, tied by correspondence only: the attribute record a decoded request carries "
@@ -120,8 +123,85 @@ def suite_framers(tier):
     return Suite("framers", X.IMPORTS, X.CHK_HIST, cases, shard=15)
 
 
+def suite_bitreads(tier):
+    """FC1/FC2 reads of 9..24 bits over mixed ON/OFF patterns (the response BYTES are judged: a partial last
+    byte after whole bytes), interleaved with coil writes"""
+    r = common.rng("C04.bitreads")
+    cases = []
+    n = 30 if tier == "quick" else 800
+    for i in range(n):
+        L = X.gen_layout(r, shared=r.random() < 0.2, start=r.choice([0, 1, 2]), size=r.choice([24, 33, 40]), sparse=False)
+        h = X.History(L, i)
+        for _ in range(r.choice([6, 12])):
+            t = r.choice(["c", "d"])
+            cells = [a for a in X.table_cells(L, t) if a >= 0]
+            q = min(r.randrange(9, 25), len(cells))
+            a = r.choice([cells[0], cells[-1] - q + 1, r.randint(cells[0], cells[-1] - q + 1)])
+            k = r.random()
+            if k < 0.7:
+                h.request(("read", t, a, q))
+            elif k < 0.85:
+                bc = (q + 7) // 8
+                h.request(("wcoils", a, q, bc, [r.choice([0xFF, 0x00, 0xA5, r.randrange(256)]) for _ in range(bc)]))
+            else:
+                h.request(("wcoil", r.choice(cells), r.choice([0, 0xFF00])))
+        h.dump()
+        cases.append(h.case(kind="bitreads"))
+    return Suite("bitreads", X.IMPORTS, X.CHK_HIST, cases, shard=10)
+
+
+def sharing_history(r, L, n, fe, kind):
+    """writes followed by reads of the SAME addresses in the sibling tables (coil -> discrete input,
+    holding -> input register): tables built from separate block objects must not share cells"""
+    h = X.History(L, fe)
+    for _ in range(n):
+        k = r.random()
+        if k < 0.25:
+            a, _ = X.pick_range(r, L, "c", 1, True)
+            h.request(("wcoil", a, 0xFF00 if r.random() < 0.8 else 0))
+            h.request(("read", "d", a, 1))
+        elif k < 0.5:
+            a, _ = X.pick_range(r, L, "h", 1, True)
+            h.request(("wreg", a, r.randrange(1, 65536)))
+            h.request(("read", "i", a, 1))
+        elif k < 0.65:
+            a, q = X.pick_range(r, L, "c", 12, True)
+            bc = (q + 7) // 8
+            h.request(("wcoils", a, q, bc, [0xFF] * bc))
+            h.request(("read", "d", a, q))
+        elif k < 0.8:
+            a, q = X.pick_range(r, L, "h", 6, True)
+            h.request(("wregs", a, q, 2 * q, [r.randrange(1, 256) for _ in range(2 * q)]))
+            h.request(("read", "i", a, q))
+            h.request(("read", "c", a, q))
+        else:
+            h.request(X.gen_request(r, L, r.choice(X.DATA_FCS), valid=r.random() < 0.8))
+    h.dump()
+    return h.case(kind=kind)
+
+
+def suite_sharing(tier):
+    """(i) ModbusSlaveContext() with its default create() tables; (ii) every table of two contexts built
+    from the same Python list object.  The final dump covers all blocks (digest + touched neighbourhood
+    in every table for the 65536-cell defaults; the second context's blocks too)."""
+    r = common.rng("C04.sharing")
+    cases = []
+    reps = 1 if tier == "quick" else 10
+    i = 0
+    for _ in range(reps):
+        for zero in (False, True):
+            for _k in range(2):
+                cases.append(sharing_history(r, X.default_layout(zero), r.choice([4, 8]), i, "default-tables"))
+                i += 1
+    for _ in range(14 if tier == "quick" else 300):
+        cases.append(sharing_history(r, X.samelist_layout(r), r.choice([4, 8, 12]), i, "same-list-object"))
+        i += 1
+    return Suite("sharing", X.IMPORTS, X.CHK_HIST, cases, shard=3)
+
+
 def suites(tier):
-    return [suite_histories(tier), suite_layouts(tier), suite_shared_sparse(tier), suite_framers(tier)]
+    return [suite_histories(tier), suite_layouts(tier), suite_shared_sparse(tier), suite_framers(tier),
+            suite_bitreads(tier), suite_sharing(tier)]
 
 
 def classify(suite, desc):
